@@ -9,6 +9,8 @@
 (*        "junkH" damaged headers: no mode can decode it                   *)
 (*        "junkB" headers fine, body damaged: the count mode (which reads  *)
 (*                only the two headers) decodes it, list/all do not        *)
+(*        "junkO" cannot even be opened (a dangling link, a file removed   *)
+(*                between the listing and the open)                        *)
 (*   sel  whether the selection options select it                          *)
 (*                                                                         *)
 (* Rule:  Shown(files, mode, rev) - the selected files the mode can        *)
@@ -17,11 +19,14 @@
 (* Impl:  the loop of listOption / extractAllPELsData / printPELCount, one *)
 (*        step per file.  Barrier = TRUE is the code (try/except around    *)
 (*        the decode); Barrier = FALSE shows what the barrier is for.      *)
+(*        OpenInside = TRUE is the code after fix c3306ce (the open stands *)
+(*        inside the barrier); FALSE is the tree as found (D15): a file    *)
+(*        that cannot be opened ends the run with a traceback.             *)
 (***************************************************************************)
 EXTENDS Naturals, Sequences, FiniteSets
 
 CONSTANTS Files,        \* set of file records to draw directories from
-          Barrier, SortList
+          Barrier, SortList, OpenInside
 
 Decodable(mode, f) == f.kind = "pel" \/ (f.kind = "junkB" /\ mode = "count")
 
@@ -54,7 +59,7 @@ Step ==
             IF Decodable(mode, f)
             THEN /\ out' = IF f.sel THEN Append(out, f) ELSE out
                  /\ idx' = idx + 1 /\ UNCHANGED <<status, errs>>
-            ELSE IF Barrier
+            ELSE IF Barrier /\ (OpenInside \/ f.kind # "junkO")
                  THEN idx' = idx + 1 /\ errs' = errs + 1 /\ UNCHANGED <<out, status>>   \* diagnostic on stderr
                  ELSE status' = "traceback" /\ UNCHANGED <<idx, out, errs>>
     /\ UNCHANGED <<dir, mode, rev, walk>>
